@@ -70,7 +70,12 @@ class BranchLinearResampler(_BranchResampler):
         y = np.interp(xvals, xp, xyzr[:, 1])
         z = np.interp(xvals, xp, xyzr[:, 2])
         r = np.interp(xvals, xp, xyzr[:, 3])
-        return cast(npt.NDArray[np.float32], np.stack([x, y, z, r], axis=1))
+        new_xyzr = np.stack([x, y, z, r], axis=1)
+        # keep the end points exactly, np.interp is ambiguous at zero-length segments
+        new_xyzr[0] = xyzr[0]
+        if self.n_nodes > 1:
+            new_xyzr[-1] = xyzr[-1]
+        return cast(npt.NDArray[np.float32], new_xyzr)
 
     def extra_repr(self) -> str:
         return f"n_nodes={self.n_nodes}"
@@ -121,6 +126,10 @@ class BranchIsometricResampler(_BranchResampler):
             ]
         ).T
         new_xyzr[:, 3] = np.interp(new_distances, cumulative_distances, xyzr[:, 3])
+        # keep the end points exactly, np.interp is ambiguous at zero-length segments
+        new_xyzr[0] = xyzr[0]
+        if n_nodes > 1:
+            new_xyzr[-1] = xyzr[-1]
         return new_xyzr
 
     def extra_repr(self) -> str:
